@@ -177,6 +177,9 @@ func TestC13_SignTransaction(t *testing.T) {
 				idx = append(idx, i%nIn)
 			}
 		}
+		if len(idx) == 0 && rapid.Bool().Draw(t, "empty_not_nil") {
+			idx = []int{} // "no indexes named" arrives as an empty list as often as it arrives as nothing (JSON [] vs absent)
+		}
 		if encrypted {
 			if err := w.Lock([]byte("pw")); err != nil {
 				t.Fatalf("Lock: %v", err)
